@@ -7,6 +7,7 @@ import Driver.OpsPath
 import Driver.OpsFs
 import Driver.OpsRawXml
 import Driver.OpsUpload
+import Driver.OpsPropfind
 namespace Driver
 
 def dispatch (op : String) (args : List SExp) : Option OpResult :=
@@ -47,6 +48,8 @@ def dispatch (op : String) (args : List SExp) : Option OpResult :=
   | "raw.typed" => opRawTyped args
   | "up" => opUpload args
   | "conc" => opConc args
+  | "pf.resp" => opPfResp args
+  | "pf.scope" => opPfScope args
   | "card.filter" => opCardFilter args
   | _ => none
 
